@@ -115,7 +115,7 @@ PROPS["C15"] = {
 }
 
 PROPS["C03"] = {
-    "imports": ["NsyncVerif.Props.C03", "NsyncVerif.Proofs.VC", "NsyncVerif.Props.C03Once", "NsyncVerif.Props.C03Counter", "NsyncVerif.Props.C03Signal", "NsyncVerif.Props.C03Note"],
+    "imports": ["NsyncVerif.Props.C03", "NsyncVerif.Proofs.VC", "NsyncVerif.Props.C03Once", "NsyncVerif.Props.C03Counter", "NsyncVerif.Props.C03Signal", "NsyncVerif.Props.C03Note", "NsyncVerif.Props.C03Transfer"],
     "theorems": ["NsyncVerif.Props.C03." + t for t in ["C03_release_chain", "C03_mutex_handoff", "C03_release_recorded", "C03_released_monotone",
                  "C03_unlock_happens_before_lock", "C03_orders_required"]] +
                 ["NsyncVerif.VC." + t for t in ["vc_mono_run", "acq_sees_relc", "rel_records", "release_chain_run", "message_passing",
@@ -128,15 +128,18 @@ PROPS["C03"] = {
                 ["Note." + t for t in ["C03_note_machine", "C03_note_orders", "C03_note_no_other_edges", "C03_note_invariant", "C03_note_edge", "C03_note_store_once",
                  "C03_note_single_store", "C03_note_the_notifier", "C03_note_origin", "C03_note_ancestor", "C03_note_lazy_expiry", "C03_note_born",
                  "C03_note_is_notified", "C03_note_wait", "C03_note_carrier", "C03_note_trace", "C03_note_any_observer",
-                 "ExampleVC.C03_note_needs_release_store", "ExampleVC.C03_note_needs_acquire_load", "ExampleVC.C03_note_born_needs_release_store"]],
-    "layers": ["vc", "mux", "once", "counter", "cv"],
-    "tie": ["NsyncVerif.Proofs.TieOrders", "NsyncVerif.Proofs.TieSites", "NsyncVerif.Proofs.TieSignal", "NsyncVerif.Proofs.TieNote"],
+                 "ExampleVC.C03_note_needs_release_store", "ExampleVC.C03_note_needs_acquire_load", "ExampleVC.C03_note_born_needs_release_store"]] +
+                ["NsyncVerif.CvMu." + t for t in ["C03_signal_transfer", "C03_signal_transfer_full_composed", "C03_signal_transfer_loop_exit", "C03_signal_transfer_published",
+                 "C03_signal_transfer_wake", "C03_transfer_orders", "C03_transfer_machine", "C03_transfer_invariant",
+                 "C03_transfer_needs_acquire_cas", "C03_transfer_needs_release_store", "C03_transfer_needs_release_cas", "C03_transfer_needs_acquire_load"]],
+    "layers": ["vc", "mux", "once", "counter", "cv", "cvmu"],
+    "tie": ["NsyncVerif.Proofs.TieOrders", "NsyncVerif.Proofs.TieSites", "NsyncVerif.Proofs.TieSignal", "NsyncVerif.Proofs.TieNote", "NsyncVerif.Proofs.TieTransfer"],
     "harness_args": ["plain=1"],     # log nsync's own plain accesses to registered objects: raced-checked by the vc layer
     "oracles": {"vc"},
     "plan": {"quick": [("core", 80, 6), ("cv", 50, 6), ("muwait", 50, 6), ("once", 60, 6), ("ctr", 60, 6)],
              "thorough": [("core", 800, 12), ("cv", 500, 12), ("muwait", 500, 12), ("once", 600, 12), ("ctr", 600, 12), ("mixed", 500, 12)]},
     "level_text": "Kernel-checked theorems: (1) over the MuX protocol with declared orders and ghost vector clocks — the release clock of the mutex word always covers every past release point (C03_release_chain), so whatever a thread did before giving up its share happens before the continuation of every thread that later comes to own a share, for all interleavings and any number of threads, using only acquire/release strength and the C++20 release-sequence rule (C03_unlock_happens_before_lock); the acceptor requires acquire on every share/spinlock-taking write, release on every share/spinlock-releasing write and release on the plain stores (C03_orders_required); (2) over the generic vector-clock machine — the message-passing theorem (release write, then only RMWs / dominated release stores, then acquire read ⇒ happens-before); (3) over the PRODUCT of the Once acceptor with the clock machine — the end of the once-function happens before every nsync_run_once* return, for all accepted traces (C03_once), with the negative control that a relaxed final load carries no edge; (4) over the product of the Counter acceptor with the clock machine — the pre-CAS clock of the zeroing add and of every add before it is below the clock of every nsync_counter_wait that returns 0; the carrier is the waiter's own acquire load of the value on every path, never the semaphore or the counter mutex (C03_counter, C03_counter_carrier, C03_counter_no_other_edges). Tied to the code by lockstep: every atomic operation of every explored execution goes through the vc layer (which also checks the five hand-offs of the statement on the real executions: data-race detector for mutex-protected client data AND for nsync's own plain fields (compiler-instrumented accesses to queue links, waiter records, note and counter fields), once end→return, note set→observation, counter zero→wait return, signal→woken return) and the mutex word's operations through MuX's order checks.",
-    "level_note": "The mutex, once, counter and cv-signal edges are theorems (products of the layer acceptors with the clock machine; the signal edge over the CvFix model for nsync_cv_wait* and nsync_wait_n, its site orders tied to the regenerated site table by Tie.signal_sites_tie). The note edge is a product theorem over the Note model as well (every observer of a note's flag — nsync_note_is_notified, nsync_note_wait on the fast and on the woken path, and any later acquire load incl. the cancellable waits' — is ordered after THE one store of that flag and after the call that led to it: explicit notify of the note or an ancestor, the lazy-expiry poller, or the creator of a born-notified child; the flag is stored at most once; site orders tied by Tie.note_sites_tie). Scope facts made explicit by witnesses: a redundant nsync_note_notify that finds the flag set, and a note with a zero deadline ('notified' with the flag clear), are the source of no edge. Still partial: for waiters a signal TRANSFERS to the mutex queue the theorem stops at the transfer (C03_signal_transfer_partial: the waker's clock is in the release clock of the mutex word) — the final wake-up is the mutex unlock path, an edge of the mutex layer (C03_unlock_happens_before_lock), and the composition of the two layers is not a theorem. Orders of sites no explored schedule reaches are not covered by lockstep. SC interleavings only, as the property specifies.",
+    "level_note": "The mutex, once, counter and cv-signal edges are theorems (products of the layer acceptors with the clock machine; the signal edge over the CvFix model for nsync_cv_wait* and nsync_wait_n, its site orders tied to the regenerated site table by Tie.signal_sites_tie). The note edge is a product theorem over the Note model as well (every observer of a note's flag — nsync_note_is_notified, nsync_note_wait on the fast and on the woken path, and any later acquire load incl. the cancellable waits' — is ordered after THE one store of that flag and after the call that led to it: explicit notify of the note or an ancestor, the lazy-expiry poller, or the creator of a born-notified child; the flag is stored at most once; site orders tied by Tie.note_sites_tie). Scope facts made explicit by witnesses: a redundant nsync_note_notify that finds the flag set, and a note with a zero deadline ('notified' with the flag clear), are the source of no edge. Waiters that a signal TRANSFERS to the mutex queue are covered by a composition theorem over the joint acceptor CvFix × MuX × clocks (Props/C03Transfer: C03_signal_transfer — the waker's clock at its call is covered by the waiter's clock at the loop exit and at the return; chain: cv.c/3 release CAS → release sequence on the mutex word (every later spinlock acquisition is an acquire RMW; the plain release stores of mu_wait.c are by the spinlock holder) → the unlocker's release store of `waiting` → the waiter's acquire load), with the orders tied by Tie.transfer_sites_tie and the joint acceptor's five consistency checks K1–K5 replayed on every execution (layer cvmu). One fact is taken from the log rather than derived: that the thread which wakes a transferred record acquired the mutex word after the waker's cv.c/3 (check K5). Orders of sites no explored schedule reaches are not covered by lockstep. SC interleavings only, as the property specifies.",
 }
 
 MUQ = "NsyncVerif.MuQ."
@@ -300,14 +303,16 @@ PROPS["C06"] = {
                  "C06_samecond_ring_sound", "C06_skip_sound", "C06_samecond_ring_partial", "C06_samecond_ring_full_refuted",
                  "C06_true_cond_has_responsible", "C06_desig_waker_justified", "C06_no_missed_cond", "C06_no_stuck_state_partial",
                  "C06_without_wakeup_sound", "C06_without_wakeup_no_missed", "C06_without_wakeup_sound_full_refuted",
-                 "C06_no_stuck_state_old_code_witness", "C06_no_missed_cond_old_code_witness", "C06_quiescent_witness"]],
+                 "C06_no_stuck_state_old_code_witness", "C06_no_missed_cond_old_code_witness", "C06_quiescent_witness",
+                 "C06_no_stuck_state", "C06_writer_waiting_justified", "C06_long_wait_justified", "C06_responsible", "C06_responsible_pending",
+                 "C06_timeout_store_clean", "C06_lock_slow_record", "C06_quiescent_no_plain_waiter"]],
     "layers": ["muc", "mux"],
     "tie": ["NsyncVerif.Proofs.TieConsts"],
     "oracles": {"cond-under-lock", "muwait-result", "muwait-missed", "stuck", "steplimit", "panic", "crash", "exclusion", "exclusion-ann", "early-timeout", "bad-cancel", "bad-result"},
     "plan": {"quick": [("muc", 160, 8), ("muwait", 100, 8), ("timed_contended", 80, 10), ("muc_eqmix", 100, 10)],
              "thorough": [("muc", 1600, 16), ("muwait", 1000, 16), ("timed_contended", 800, 20), ("muc_eqmix", 1000, 20)]},
-    "level_text": "Kernel-checked theorems over the MuC model (mu.c + mu_wait.c — as repaired by ace4c21 — statement by statement: condition records, same-condition rings, unlock_slow's scan with condition evaluation, MU_CONDITION / MU_ALL_FALSE hints, timeouts and cancellations, unlock_without_wakeup; any number of threads): every condition is evaluated by a thread that owns a share of the lock or the writer bit, never concurrently with another thread's write critical section, and it is the condition the queue record prescribes with the value the protected data gives (C06_cond_under_lock); the lock / spinlock / queue invariants (C06_inv_lock, C06_inv_spin, C06_inv_queue); the ring invariant is inductive and the skip over a same-condition ring passes only waiters whose condition is false on the current data (C06_samecond_ring_sound, C06_skip_sound); both hint bits mean what common.h says — MU_CONDITION clear: no queued waiter has a condition; MU_ALL_FALSE set: every queued condition is false on the data as they were when the current write section began (C06_hint, C06_hint_all_false); NO MISSED CONDITION (C06_no_missed_cond): in every reachable state in which a queued waiter's condition is true (and unlock_without_wakeup's contract was kept) some thread is responsible for it — it holds a share, or is an unlocker / a woken thread in flight, or has timed out and is re-acquiring (C06_true_cond_has_responsible); MU_DESIG_WAKER is never set without such a thread (C06_desig_waker_justified); a release by unlock_without_wakeup leaves asleep only waiters whose conditions are false on the data, or somebody else is responsible (C06_without_wakeup_sound, C06_without_wakeup_no_missed); in a quiescent state every thread asleep in nsync_mu_wait is queued with a condition that is false (C06_no_stuck_state_partial). Tied to the code by lockstep replay of the muc / muwait / muc_eqmix / timed_contended families through the MuC acceptor — which checks, on every explored execution, which conditions the scan evaluates, which waiters it wakes and every word value — and by the interpreter's oracles: stuck, muwait-missed (a waiter asleep at quiescence although its condition is true and the mutex is free), cond-under-lock.",
-    "level_note": "Found while proving these invariants: defect F8 (mu_wait.c decided from a stale word whether its release must wake waiters — repaired in /repo, ace4c21; what the pinned code did is recorded by C06_no_missed_cond_old_code_witness / C06_no_stuck_state_old_code_witness against the old rule, and by the corpus regressions). Still a definition without proof: C06_no_stuck_state_full for threads asleep inside nsync_mu_lock / rlock on a mutex that also has condition waiters (it needs 'MU_WRITER_WAITING and MU_LONG_WAIT are never stale' for the extended model; for the core operations that is C02's theorem). The literal C06_without_wakeup_sound_full is refuted as stated (the fast path is also taken under MU_DESIG_WAKER) and proved in corrected form. 'Rings are maximal runs' is refuted — harmless. 'Returns once its condition has been made true' is the safety form (somebody responsible exists); fair termination is a paper step."
+    "level_text": "Kernel-checked theorems over the MuC model (mu.c + mu_wait.c — as repaired by ace4c21 — statement by statement: condition records, same-condition rings, unlock_slow's scan with condition evaluation, MU_CONDITION / MU_ALL_FALSE hints, timeouts and cancellations, unlock_without_wakeup; any number of threads): every condition is evaluated by a thread that owns a share of the lock or the writer bit, never concurrently with another thread's write critical section, and it is the condition the queue record prescribes with the value the protected data gives (C06_cond_under_lock); the lock / spinlock / queue invariants (C06_inv_lock, C06_inv_spin, C06_inv_queue); the ring invariant is inductive and the skip over a same-condition ring passes only waiters whose condition is false on the current data (C06_samecond_ring_sound, C06_skip_sound); both hint bits mean what common.h says — MU_CONDITION clear: no queued waiter has a condition; MU_ALL_FALSE set: every queued condition is false on the data as they were when the current write section began (C06_hint, C06_hint_all_false); NO MISSED CONDITION (C06_no_missed_cond): in every reachable state in which a queued waiter's condition is true (and unlock_without_wakeup's contract was kept) some thread is responsible for it — it holds a share, or is an unlocker / a woken thread in flight, or has timed out and is re-acquiring (C06_true_cond_has_responsible); MU_DESIG_WAKER is never set without such a thread (C06_desig_waker_justified); a release by unlock_without_wakeup leaves asleep only waiters whose conditions are false on the data, or somebody else is responsible (C06_without_wakeup_sound, C06_without_wakeup_no_missed); NO STUCK STATE (C06_no_stuck_state): in a reachable quiescent state every sleeper is a condition waiter that is queued with a condition that is false — in particular nobody sleeps inside nsync_mu_lock / rlock; this rests on 'the hints are never stale' for the model with conditional critical sections: MU_WRITER_WAITING set implies a writer that justifies it (C06_writer_waiting_justified), MU_LONG_WAIT set implies a long waiter queued or in flight (C06_long_wait_justified), and every queued sleeper whose condition is true or absent has somebody responsible (C06_responsible). Tied to the code by lockstep replay of the muc / muwait / muc_eqmix / timed_contended families through the MuC acceptor — which checks, on every explored execution, which conditions the scan evaluates, which waiters it wakes and every word value — and by the interpreter's oracles: stuck, muwait-missed (a waiter asleep at quiescence although its condition is true and the mutex is free), cond-under-lock.",
+    "level_note": "Found while proving these invariants: defect F8 (mu_wait.c decided from a stale word whether its release must wake waiters — repaired in /repo, ace4c21; what the pinned code did is recorded by C06_no_missed_cond_old_code_witness / C06_no_stuck_state_old_code_witness against the old rule, and by the corpus regressions). Every `_full` statement of Props/C06.lean is now proved, or refuted and proved in corrected form. The literal C06_without_wakeup_sound_full is refuted as stated (the fast path is also taken under MU_DESIG_WAKER) and proved in corrected form. 'Rings are maximal runs' is refuted — harmless. 'Returns once its condition has been made true' is the safety form (somebody responsible exists); fair termination is a paper step."
 }
 for k in ("C05", "C06", "C11", "C13"):
     NOT_YET.pop(k, None)
